@@ -4,7 +4,6 @@ import (
 	"errors"
 	"net"
 	"strconv"
-	"strings"
 )
 
 const hexDigit = "0123456789abcdef"
@@ -335,12 +334,21 @@ func Fqdn(s string) string {
 // form is lowercase and fully qualified. Only US-ASCII letters are affected. See
 // Section 6.2 in RFC 4034.
 func CanonicalName(s string) string {
-	return strings.Map(func(r rune) rune {
-		if r >= 'A' && r <= 'Z' {
-			r += 'a' - 'A'
+	s = Fqdn(s)
+	// Octet by octet: a name is a string of octets, not of runes. Mapping
+	// runes would replace every octet that is not valid UTF-8 by U+FFFD.
+	for i := 0; i < len(s); i++ {
+		if c := s[i]; c >= 'A' && c <= 'Z' {
+			b := []byte(s)
+			for j := i; j < len(b); j++ {
+				if c := b[j]; c >= 'A' && c <= 'Z' {
+					b[j] = c + ('a' - 'A')
+				}
+			}
+			return string(b)
 		}
-		return r
-	}, Fqdn(s))
+	}
+	return s
 }
 
 // Copied from the official Go code.
